@@ -76,7 +76,7 @@ def cases(draw):
 
 
 def strategy(tier):
-    return cases()
+    return st.one_of(cases(), cases(), cases(), cases(), imported_cases())
 
 
 def build(case):
@@ -133,6 +133,8 @@ class Stop(Exception):
 
 
 def evaluate(case):
+    if case.get("kind") == "imported":
+        return eval_imported(case)
     from textx import metamodel_from_str
     from textx.exceptions import TextXError, TextXSemanticError, TextXSyntaxError
     from textx.model import textxerror_wrap
@@ -235,3 +237,86 @@ def evaluate(case):
             b = f"supplied_{f}_changed" if kept else f"{f}/{tkind}"
             out.add(b, ctx + f": {f} is {got[f]!r}, expected {want[f]!r} ({err})")
     return out
+
+
+# -- processors failing on objects of an imported model ----------------------------------------------------------------
+IMP_GRAMMAR = r"""
+Model: imports*=Import items*=Item;
+Import: 'import' importURI=STRING;
+Item: 'item' name=ID;
+"""
+
+
+@st.composite
+def imported_cases(draw):
+    return {"kind": "imported", "lib_items": draw(st.integers(1, 4)), "main_items": draw(st.integers(0, 3)),
+            "where": draw(st.sampled_from(["lib", "lib", "main"])), "k": draw(st.integers(0, 3)),
+            "gaps": draw(st.lists(st.sampled_from([" ", "\n", "\n\n  ", "\t"]), min_size=8, max_size=8)),
+            "style": draw(st.sampled_from(["plain", "semantic", "wrapped"]))}
+
+
+def eval_imported(case):
+    import os
+    import shutil
+    import tempfile
+
+    from textx import metamodel_from_str
+    from textx.exceptions import TextXError, TextXSemanticError
+    from textx.model import get_model  # noqa: F401
+    from textx.scoping import providers as P
+    from textx.model import textxerror_wrap
+
+    out = Outcome()
+    tmp = os.path.realpath(tempfile.mkdtemp(prefix="vt-c33i-"))
+    try:
+        gaps = case["gaps"]
+
+        def body(prefix, n, boom_at):
+            text, pos = "", None
+            for i in range(n):
+                text += gaps[(i + len(prefix)) % len(gaps)]
+                if i == boom_at:
+                    pos = len(text)
+                text += "item " + ("boom" if i == boom_at else f"{prefix}{i}")
+            return text + "\n", pos
+
+        in_lib = case["where"] == "lib"
+        lib_text, lib_pos = body("l", case["lib_items"], case["k"] % case["lib_items"] if in_lib else -1)
+        n_main = max(case["main_items"], 0 if in_lib else 1)
+        main_body, main_pos = body("m", n_main, -1 if in_lib else case["k"] % n_main)
+        head = 'import "lib.m"\n'
+        main_text = head + main_body
+        if main_pos is not None:
+            main_pos += len(head)
+        with open(os.path.join(tmp, "lib.m"), "w", newline="") as f:
+            f.write(lib_text)
+        with open(os.path.join(tmp, "main.m"), "w", newline="") as f:
+            f.write(main_text)
+        mm = metamodel_from_str(IMP_GRAMMAR)
+        mm.register_scope_providers({"*.*": P.PlainNameImportURI()})
+
+        def proc(o):
+            if o.name == "boom":
+                if case["style"] == "semantic":
+                    raise TextXSemanticError("rejected by the harness")
+                if case["style"] == "plain":
+                    raise TextXError("rejected by the harness")
+                raise ValueError("rejected by the harness")
+
+        mm.register_obj_processors({"Item": textxerror_wrap(proc) if case["style"] == "wrapped" else proc})
+        text, pos, fname = (lib_text, lib_pos, "lib.m") if in_lib else (main_text, main_pos, "main.m")
+        el, ec = linecol(text, pos)
+        out.cls("kind:imported", "failing_object_in:" + case["where"], "style:" + case["style"])
+        out.nontrivial = in_lib
+        out.sample = {"main": main_text, "lib": lib_text, "where": case["where"], "style": case["style"], "expected": [fname, el, ec]}
+        try:
+            mm.model_from_file(os.path.join(tmp, "main.m"))
+            return out.add("imported/no_error", str(out.sample))
+        except TextXError as e:
+            got = (os.path.basename(e.filename or ""), e.line, e.col)
+            if got != (fname, el, ec):
+                what = "filename" if got[0] != fname else "line_col"
+                out.add(f"imported/{what}/{case['where']}", f"{out.sample}: error located at {got}")
+        return out
+    finally:
+        shutil.rmtree(tmp, ignore_errors=True)
